@@ -47,7 +47,3 @@ C("mako.runtime:_kwargs_for_callable",
   locals={"kwargs": "Dict[Str,Any]"},
   props=["C08", "C07"])
 
-FUNSPEC("render_callable",
-        params={"ctx": "Context", "*args": "Star", "**kwargs": "Star"}, returns="Any",
-        raises={"*": {}},
-        note="placeholder spec for a render callable used only as an argument of inspect_getargspec")
